@@ -174,13 +174,27 @@ impl<S: BuildHasher + Clone + 'static> ExpirationMap<S> {
         let (old_bucket_num, new_bucket_num) =
             (storage_bucket(old_exp_time), storage_bucket(new_exp_time));
 
-        if old_bucket_num == new_bucket_num {
+        if !old_exp_time.is_zero() && !new_exp_time.is_zero() && old_bucket_num == new_bucket_num {
             return Ok(());
         }
 
         let mut m = self.buckets.write();
 
-        m.remove(&old_bucket_num);
+        // Only this key leaves its old bucket: the other keys expiring in the same
+        // second must stay listed. An entry without TTL was never listed.
+        if !old_exp_time.is_zero() {
+            if let Some(bucket) = m.get_mut(&old_bucket_num) {
+                bucket.map.remove(&key);
+                if bucket.map.is_empty() {
+                    m.remove(&old_bucket_num);
+                }
+            }
+        }
+
+        // Items that don't expire don't need to be in the expiration map.
+        if new_exp_time.is_zero() {
+            return Ok(());
+        }
 
         match m.get_mut(&new_bucket_num) {
             None => {
